@@ -63,9 +63,22 @@ def classify(res, lmap, funcs):
     s = res['summary']
     out = dict(status='ok', per_fn={}, support_failures=[], compile_errors=[], verified=0, errors=0, smt_ms=0)
     errs = [d for d in res['diags'] if d.get('level') == 'error' and not d.get('message', '').startswith('aborting due to')]
+    def _culprits():
+        idxs = []
+        for d in errs:
+            for sp in (d.get('spans') or []):
+                if not os.path.basename(sp.get('file_name', '')).startswith('x86_64_'):
+                    continue
+                ln = sp.get('line_start', 0)
+                if 1 <= ln <= len(lmap):
+                    o = lmap[ln - 1]
+                    if len(o) > 3 and o[3] is not None and o[3] not in idxs:
+                        idxs.append(o[3])
+        return idxs
     if s is None or 'verification-results' not in s:
         out['status'] = 'undecided'
         out['compile_errors'] = [d.get('rendered') or d.get('message') for d in errs] or [res['stderr'][-2000:]]
+        out['compile_error_fns'] = _culprits()
         return out
     vr = s['verification-results']
     out['verified'] = vr.get('verified', 0)
@@ -78,6 +91,7 @@ def classify(res, lmap, funcs):
     if vr.get('encountered-vir-error') or (not vr.get('success') and vr.get('errors', 0) == 0):
         out['status'] = 'undecided'
         out['compile_errors'] = [d.get('rendered') or d.get('message') for d in errs] or [res['stderr'][-2000:]]
+        out['compile_error_fns'] = _culprits()
         return out
     for d in errs:
         spans = [sp for sp in (d.get('spans') or []) if os.path.basename(sp.get('file_name', '')).startswith('x86_64_')]
@@ -114,13 +128,35 @@ def run(repo='/repo', outdir=None, rlimit=None, modes=('A', 'B')):
     os.makedirs(outdir, exist_ok=True)
     t0 = time.time()
     result = dict(outdir=outdir, status='ok', reason='', modes={}, seconds=0.0)
+    degraded = {}
+    for attempt in range(4):
+        r2 = _run_once(repo, outdir, rlimit, modes, degraded, result)
+        if r2 is None:
+            break           # decided (or undecided for a reason that degrading cannot cure)
+        # Verus rejected a woven file at spans inside these functions: weave them signature + contract only
+        # and verify everything else
+        new = {k: v for k, v in r2.items() if k not in degraded}
+        if not new:
+            break
+        degraded.update(new)
+        result.update(status='ok', reason='', modes={})
+    result['degraded'] = {'%s | %s | %s' % k: v for k, v in degraded.items()}
+    result['seconds'] = time.time() - t0
+    return result
+
+
+def _run_once(repo, outdir, rlimit, modes, degraded, result):
+    """One weave + verify pass. Fills `result`. Returns None when done, or {function key: reason} for functions
+    at which Verus rejected a file (candidates for degrading)."""
+    t0 = time.time()
     try:
-        w = weave.weave_all(repo, spec_files(), PRELUDE, outdir, modes)
+        w = weave.weave_all(repo, spec_files(), PRELUDE, outdir, modes, degraded)
     except (ExtractError, weave.SpecError) as e:
         result['status'] = 'undecided'
         result['reason'] = 'lost anchor / unsupported shape: %s' % e
-        return result
+        return None
     procs = {}
+    culprits = {}
     # run both modes concurrently
     import concurrent.futures
     with concurrent.futures.ThreadPoolExecutor(max_workers=len(modes)) as ex:
@@ -145,8 +181,14 @@ def run(repo='/repo', outdir=None, rlimit=None, modes=('A', 'B')):
         if cl['status'] != 'ok':
             result['status'] = 'undecided'
             result['reason'] = 'Verus rejected the woven file (mode %s): %s' % (m, (cl['compile_errors'] or ['?'])[0][:600])
-    result['seconds'] = time.time() - t0
-    return result
+            for fi in cl.get('compile_error_fns', []):
+                f = w[m]['funcs'][fi]
+                if f.get('kind') == 'fn' and not f.get('degraded'):
+                    key = (f['file'], weave.norm(f.get('orig_header') or f.get('header') or ''), f.get('orig_name') or f['name'])
+                    culprits[key] = 'Verus rejected the woven text of this function: %s' % (cl['compile_errors'] or ['?'])[0][:300]
+    if result['status'] != 'ok' and culprits:
+        return culprits
+    return None
 
 
 if __name__ == '__main__':
